@@ -159,7 +159,11 @@ impl SecondaryStorage {
                     && let [Ok(table_id), Ok(rowset_id), Ok(dv_id)] = ids[..]
                     && !dvs_to_open.contains_key(&(table_id as u32, rowset_id as u32, dv_id))
                 {
+                    #[cfg(risinglight_verif)]
+                    crate::verif::point_sync("persist.boot.dvvacuum", &entry.path().to_string_lossy());
                     fs::remove_file(entry.path()).await?;
+                    #[cfg(risinglight_verif)]
+                    crate::verif::point_sync("persist.boot.dvvacuum.done", &entry.path().to_string_lossy());
                 }
             }
         }
